@@ -731,7 +731,7 @@ def run_cases(run, cases, exe, drv):
                 elif cur is not None:
                     r = results[cur]
                     r["lines"].append(line)
-                    for tag in ("load", "wf", "levels", "sets", "totals", "removal", "merge", "inserts", "meminserts", "synthreq", "linuxcpu", "x86req", "check"):
+                    for tag in ("load", "wf", "levels", "sets", "totals", "removal", "merge", "mergehyp", "inserts", "meminserts", "synthreq", "linuxcpu", "x86req", "check"):
                         if line.startswith(tag + " "):
                             r[tag] = line
             if rc != 0 or rc2 != 0:
@@ -756,6 +756,11 @@ def judge(run, cases, results):
             run.violation("crash:%s" % name, "crash / sanitizer report while loading %s" % name, script + "\n--- output\n" + r["crash"])
             continue
         if ok_load:
+            if r.get("mergehyp") is not None:
+                # hypotheses of level_merge_pass_keeps_children_ordered (distinct ids, ordered children) on the tree
+                # observed right before the load-time KEEP_STRUCTURE pass
+                ck = "merge_passes_inside_order_theorem" if r["mergehyp"].strip() == "mergehyp 1" else "merge_passes_outside_order_theorem"
+                run.cov[ck] = run.cov.get(ck, 0) + 1
             if r["wf"] is None or not r["wf"].startswith("wf ok"):
                 clauses = sorted(set(re.findall(r"([a-z-]+)@", r["wf"] or "")))
                 run.violation("wf:%s:%s" % (kind, ",".join(clauses)), "loaded topology violates WF clause(s) %s: %s" % (clauses, name),
